@@ -115,6 +115,74 @@ pub fn documented_penalties(input: &[u8], m: usize, e: usize, v: usize) -> [i64;
     pens
 }
 
+/// Version-1 and version-2 payloads (byte mode, level L, full capacity) one of whose candidates has a documented
+/// penalty of exactly 0, found by a deterministic hill climb with R: start from diagonal stripes of width two in
+/// candidate k (no run of five, no 2x2 block, no 1011101 window, half dark), flip payload bits while the penalty of
+/// candidate k does not grow. A selection that uses 0 (or any other penalty value) as a marker shows here only.
+pub fn zero_penalty_payloads() -> Vec<Vec<u8>> {
+    let combos: Vec<(usize, usize, u64)> = (0..8usize).flat_map(|k| (0..6u64).map(move |variant| (1usize, k, variant))).chain((0..8usize).map(|k| (2usize, k, 0u64))).collect();
+    let found: std::sync::Mutex<Vec<Vec<u8>>> = std::sync::Mutex::new(vec![]);
+    pool::par_for(combos.len(), |ci| {
+        let (v, k, variant) = combos[ci];
+        let e = 0usize;
+        let g = r::geo_of(v);
+        let n = g.n;
+        let enc: Vec<bool> = g.reg.iter().map(|&x| x == Reg::Data).collect();
+        let pen_k = |p: &[u8]| -> u32 {
+            let mut vals = r::encode_symbol(p, 2, e, v, k);
+            for i in 0..n * n {
+                if g.reg[i] == Reg::Format {
+                    vals[i] = false;
+                }
+            }
+            r::penalty(&vals, &enc, n).1
+        };
+        let (a, b) = (if variant % 2 == 0 { 1usize } else { 3 }, (variant / 2) as usize);
+        let wanted = move |y: usize, x: usize| -> Option<bool> { Some((x + a * y + b) % 4 < 2) };
+        let mut p = spaces::payload_for_candidate(v, e, k, 7 + variant, &wanted);
+        let mut best = pen_k(&p);
+        let mut rng = 0x9E37_79B9_7F4A_7C15u64 ^ ((v as u64) << 32) ^ ((k as u64) << 8) ^ variant;
+        let mut next = || {
+            rng ^= rng << 13;
+            rng ^= rng >> 7;
+            rng ^= rng << 17;
+            rng
+        };
+        let bits = p.len() * 8;
+        for _ in 0..30000 {
+            if best == 0 {
+                break;
+            }
+            // one bit, sometimes two (a plateau of single flips is left by a pair)
+            let b1 = (next() % bits as u64) as usize;
+            let b2 = if next() % 3 == 0 { Some((next() % bits as u64) as usize) } else { None };
+            p[b1 / 8] ^= 1 << (b1 % 8);
+            if let Some(b2) = b2 {
+                p[b2 / 8] ^= 1 << (b2 % 8);
+            }
+            let now = pen_k(&p);
+            if now <= best {
+                best = now;
+            } else {
+                p[b1 / 8] ^= 1 << (b1 % 8);
+                if let Some(b2) = b2 {
+                    p[b2 / 8] ^= 1 << (b2 % 8);
+                }
+            }
+        }
+        if std::env::var("FQV_C11_DEBUG").is_ok() {
+            eprintln!("ZERO-SEARCH v{} k{} variant {} best {}", v, k, variant, best);
+        }
+        if best == 0 {
+            found.lock().unwrap().push(p);
+        }
+    });
+    let mut out = found.into_inner().unwrap();
+    out.sort();
+    out.dedup();
+    out
+}
+
 pub fn check_selection_with(input: &[u8], build: &dyn Fn() -> Outcome) -> (Vec<(String, String)>, Option<Selection>, Option<u64>) {
     let mut out = vec![];
     verif::record_candidates(true);
@@ -484,6 +552,19 @@ pub fn run(ctx: &Ctx) -> Collector {
         for (_, _, p, v, e, _) in kept {
             cases.push(Case::new(p, Opts { mode: Some(2), ecl: Some(e as u8), version: Some(v as u8), mask: None, order: 0 }));
         }
+        {
+            let zp = zero_penalty_payloads();
+            if zp.is_empty() {
+                col.machinery_error("S_zero: the search with R found no payload with a zero-penalty candidate (the space would be empty)".into());
+            }
+            let mut zc = vec![];
+            for p in &zp {
+                let v = if p.len() <= r::cap(1, 0, 2) { 1u8 } else { 2 };
+                zc.push(Case::new(p.clone(), Opts { mode: Some(2), ecl: Some(0), version: Some(v), mask: None, order: 0 }));
+                zc.push(Case::new(p.clone(), Opts { mode: None, ecl: Some(0), version: None, mask: None, order: 0 }));
+            }
+            spaces_v.push(Space { name: "S_zero".into(), describe: format!("{} version-1 / version-2 payloads (byte mode, level L, full capacity) one of whose candidates has a documented penalty of exactly 0, found by a deterministic hill climb with R from diagonal stripes (8 masks x 6 stripe variants on version 1, 8 masks on version 2), built with mode and version forced and fully automatic", zp.len()), cases: zc, exhaustive: true });
+        }
         spaces_v.push(Space { name: "S_planted".into(), describe: format!("designed selection instances on versions 10 and 12 (level L): a pseudo-random candidate k with one planted feature (1011101 next to a run of 33, a run followed by the window, runs of lengths 5/6/31/32, a 2x2 block across columns 63/64) and on version 40 (about 160 colour changes in one line followed by a run of six or by the window), horizontally and vertically; {} designs x {} seeds searched with R, kept: the first {} seeds of each design and every seed where the planted candidate wins or loses the documented selection by at most 60 points", n_designs, scan, plain), cases, exhaustive: true });
     }
     {
@@ -523,7 +604,7 @@ pub fn run(ctx: &Ctx) -> Collector {
             }
         });
         let n = sp.cases.len();
-        for &i in &[0, n / 2, n - 1] {
+        for &i in [0, n / 2, n.saturating_sub(1)].iter().filter(|&&i| i < n) {
             let b = sp.cases[i].bytes();
             col.sample(json!({"space": sp.name, "index": i, "input": crate::util::show(&b), "input_len": b.len(), "opts": sp.cases[i].opts.to_json()}));
         }
